@@ -26,6 +26,26 @@ pub fn obligations(o: &Obs) -> BTreeMap<String, u128> {
 impl Monitor for C05 {
     fn post(&mut self, c: &mut SimCore, step: &Step, pre: &Obs, out: &TxOut, post: &Obs) -> MResult {
         let fm = c.w.a.fm.to_string();
+        // "every position can be withdrawn at any time": an owner's exit that fails inside the
+        // contract (arithmetic, one of its own queries) - in the run itself, and tried for every
+        // position on forks at regular intervals
+        if let Op::Fm { sender, msg: FmMsg::ManagePosition { action }, .. } = &step.op {
+            let id = match action {
+                PositionAction::Close { identifier, lp_asset: None } => Some(identifier),
+                PositionAction::Withdraw { identifier, emergency_unlock: Some(true) } => Some(identifier),
+                _ => None,
+            };
+            if let Some(p) = id.and_then(|i| pre.position(i)) {
+                if p.receiver.as_str() == sender.as_str() {
+                    if let Some(e) = super::util::internal_failure(out, step, pre) {
+                        return Err(viol("C05.exit_blocked", format!("{} of position {} by its owner fails inside the contract: {e}", step.op.kind(), p.identifier)));
+                    }
+                }
+            }
+        }
+        if matches!(step.op, Op::DryClaims) || c.step_no % 7 == 3 {
+            super::util::derived_exits(c, post, "C05", 6)?;
+        }
         // cross-check the raw reads against the public paginated queries: what users can see is
         // what the custody sum is taken over
         if c.step_no % 4 == 0 {
